@@ -47,6 +47,8 @@ VARIANTS = {
     'fkf': [{}],
 }
 # filters whose configuration contains arrays: the companion is built from the same array objects
+ATTR_ROUTE = {'madgwick_imu': ('gain',), 'madgwick_marg': ('gain',), 'mahony_imu': ('k_P', 'k_I'), 'mahony_marg': ('k_P', 'k_I'),
+              'aqua_imu': ('alpha', 'beta'), 'aqua_marg': ('alpha', 'beta')}
 SHARED_OBJECT = {'madgwick_imu', 'madgwick_marg', 'aqua_imu', 'aqua_marg'}     # no carried state besides the caller's quaternion
 COMPANION_CONFIG = {
     'mahony_imu': {'b0': [0.0, 0.0, 0.0]}, 'mahony_marg': {'b0': [0.0, 0.0, 0.0]},
@@ -126,6 +128,9 @@ def error_history(scn, n, with_twin=False):
             # initial angles (roll, pitch, yaw) of the erroneous attitude, through the package's own conversion
             import ahrs
             pp['w0'] = [float(x) for x in ahrs.Quaternion(q_init).to_angles()]
+        if scn.get('int_gyro'):
+            # a quiet gyroscope logged as raw integer counts: every reading rounds to 0 (acc / mag stay floating point)
+            g = np.zeros(g.shape, dtype=np.int64)
         res, obj = K.run_batch(kind, pp, dt, dip, g, a, m)
         if isinstance(res, np.ndarray) and len(res) == n:
             for k in range(n):
@@ -153,7 +158,12 @@ def error_history(scn, n, with_twin=False):
         shared = C.make_config({k: pp[k] for k in C.CONFIG_ARRAYS if k != 'q0' and pp.get(k) is not None})
         pp.update(shared)
     try:
-        inst = kind.make(pp, dt, dip)
+        by_attr = {k_: pp[k_] for k_ in ATTR_ROUTE.get(kind.name, ()) if scn.get('attr_route') and k_ in pp}
+        inst = kind.make({k_: v_ for k_, v_ in pp.items() if k_ not in by_attr}, dt, dip)
+        for k_, v_ in by_attr.items():
+            # the gains are documented attributes: the application sets them on the live object instead of passing them
+            # to the constructor
+            setattr(inst, k_, v_)
         if scn.get('companion') and kind.name in COMPANION_CONFIG:
             qc = qm.qnorm(qm.qmul(target, qm.axang(scn['axis'][::-1], math.radians(scn['companion']))))
             pc = dict(pp)
@@ -267,6 +277,11 @@ class Check:
         w_ = rnd.random()
         if w_ < 0.3 and kind in SHARED_OBJECT:
             out['shared_obj'] = rnd.choice([60.0, 120.0, 170.0])
+        x_ = rnd.random()
+        if x_ < 0.25 and kind in ATTR_ROUTE and any(k_ in params for k_ in ATTR_ROUTE[kind]):
+            out['attr_route'] = True
+        if x_ < 0.3 and kind.startswith('complementary'):
+            out['int_gyro'] = True
         return out
 
     def gen(self, seed, tier):
